@@ -54,12 +54,18 @@ func genC13(t *rapid.T) c13Case {
 	n := rapid.IntRange(5, max).Draw(t, "nops")
 	kinds := []string{"bond", "bond", "adddelegate", "redelegate", "editbridger", "withdrawreward", "govset", "govset", "confirm", "confirm", "confirm", "endblock", "endblock", "endblock", "endblock", "unbond", "unbond", "mature", "slashval", "removeall"}
 	// prefix: everybody bonds, oracle 0 small (so that governance may remove it within the 30 % cap)
+	late := -1
+	if c.N >= 3 && rapid.Bool().Draw(t, "late") {
+		late = c.N - 1 // this oracle joins later (possibly with somebody else's bridger / external address)
+	}
 	for i := 0; i < c.N; i++ {
 		amt := int64(1000)
 		if i == 0 {
 			amt = 100
 		}
-		c.Ops = append(c.Ops, c13Op{Kind: "bond", O: i, Amt: amt, Val: i % 3})
+		if i != late {
+			c.Ops = append(c.Ops, c13Op{Kind: "bond", O: i, Amt: amt, Val: i % 3})
+		}
 	}
 	for i := 0; i < n; i++ {
 		if rapid.IntRange(0, 11).Draw(t, "lifecycle") == 0 {
@@ -71,6 +77,10 @@ func genC13(t *rapid.T) c13Case {
 				c.Ops = append(c.Ops, c13Op{Kind: "unbond", O: o})
 			}
 			c.Ops = append(c.Ops, c13Op{Kind: "mature"}, c13Op{Kind: "unbond", O: o}, c13Op{Kind: "unbond", O: o})
+			continue
+		}
+		if late >= 0 && rapid.IntRange(0, 9).Draw(t, "latebond") == 0 {
+			c.Ops = append(c.Ops, c13Op{Kind: "bond", O: late, P: rapid.IntRange(0, c.N-2).Draw(t, "lp"), Amt: 500, Val: 1, What: rapid.SampledFrom([]int{0, 0, 4, 5}).Draw(t, "lwhat")})
 			continue
 		}
 		c.Ops = append(c.Ops, c13Op{Kind: rapid.SampledFrom(kinds).Draw(t, "kind"), O: rapid.IntRange(0, c.N-1).Draw(t, "o"), P: rapid.IntRange(0, c.N-1).Draw(t, "p"),
